@@ -75,7 +75,48 @@ def cases(tier, rng, ctl=True):
     for cond in ["X", "[X]", "¥[X]¥¬", "x0", ":[X]", "n[X]0"]:
         for wrap in ["{%s|1£}", "2({%s|1£})", "λ{%s|1£};†", "3({%s|}1)", "1{:|{%s|0}_‹}"]:
             out.append((wrap % cond, "", rng.choice(machine.INPUT_SETS)))
+    out += families(tier, rng)
     return list(dict.fromkeys((p, f, tuple(map(repr, i))) for p, f, i in out)), out
+
+
+SLOTS = ["□", "1[□]", "0[1|□]", "2(□)", "2(i|□)", "0{:3<|›□}_", "0{:n+3<|›□}_", "1{n 2<|□ 5}_", "6λ□;†_", "3 4λ2|□;†_",
+         "⟨□|□⟩_", "⟨4|5⟩ƛ□;_", "5@f:1|□;@f;_", "2 3'□;_", "⟨2|1⟩µ□;_", "8 9₌λ□;λ□;__", "4⁽□†_", "1 7ßλ□;_", "⟨6|7⟩vλ□;_"]
+LEAVES = ["n,", "n", "n n+,", "n→a ←a,", "n£¥,"]
+MOD_OPERANDS = ["+", "_", ":", "$", "W", "λ2|:+*;", "λ2|_;", "λ2|$-;", "λ1|:+;", "λ3|W;", "λ0|7;", "λ2|→a ←a;", "λ_;",
+                "λ2|W;", "1", "n", "←a", "λ2|n;", "λ2|+_;", "λ3|__;", "λ2|?;", "λ2|!;", "[1|2]", "(n)", "⟨+⟩", "vN", "~+"]
+MOD_STACKS = ["3 4 ", "3 4 5 ", "⟨1|2⟩ 3 ", "3 ⟨1|2⟩ ", "⟨1|2⟩⟨3|4⟩ ", "", "0 1 ", "1 0 2 "]
+
+
+def families(tier, rng):
+    """systematic scenario families (every combination, not samples):
+    A  the context variable read in every body position of every structure, nested two deep
+    B  every modifier x operand shape (elements, lambdas of arity 0..3 whose bodies consume, keep or
+       inspect their arguments, structures) x stack shape"""
+    out = []
+    inp = machine.INPUT_SETS
+    for s1 in SLOTS:
+        for leaf in LEAVES:
+            out.append((s1.replace("□", leaf), "", inp[0]))
+        for s2 in SLOTS:
+            for leaf in (LEAVES if tier == "thorough" else LEAVES[:3]):
+                out.append((s1.replace("□", s2.replace("□", leaf)), rng.choice(["", "W"]), rng.choice(inp)))
+    if tier == "thorough":
+        for _ in range(6000):
+            s1, s2, s3 = (rng.choice(SLOTS) for _ in range(3))
+            out.append((s1.replace("□", s2.replace("□", s3.replace("□", rng.choice(LEAVES)))), rng.choice(["", "W"]),
+                        rng.choice(inp)))
+    for st in MOD_STACKS:
+        for o in MOD_OPERANDS:
+            for m in gen.MONADIC_MODS:
+                out.append((st + m + o + ("†" if m == "⁽" else ""), "W", inp[1] if st else inp[2]))
+    pairs = [(a, b) for a in MOD_OPERANDS for b in MOD_OPERANDS]
+    for m in gen.DYADIC_MODS:
+        for a, b in (pairs if tier == "thorough" else rng.sample(pairs, 220)):
+            out.append((rng.choice(MOD_STACKS) + m + a + b + ("†" if m == "‡" else ""), "W", rng.choice(inp)))
+    for _ in range(300 if tier == "quick" else 5000):
+        a, b, c = (rng.choice(MOD_OPERANDS) for _ in range(3))
+        out.append((rng.choice(MOD_STACKS) + "≬" + a + b + c + "†", "W", rng.choice(inp)))
+    return out
 
 
 def run(pid, tier, t0, which, seed_extra, ctl=True):
